@@ -25,6 +25,7 @@ static const char* cls(size_t r) {
         case ZSTD_error_parameter_outOfBound: return "err:bound";
         case ZSTD_error_stage_wrong: return "err:stage";
         case ZSTD_error_parameter_unsupported: return "err:unsupported";
+        case ZSTD_error_checksum_wrong: return "err:checksum";
         default: fprintf(stderr, "other: %s\n", ZSTD_getErrorName(r)); return "err:other";
     }
 }
@@ -67,6 +68,30 @@ int main(void) {
                      : kind == 'd' ? ZSTD_DCtx_setParameter(dctx, (ZSTD_dParameter)x, (int)y)
                                    : ZSTD_CCtxParams_setParameter(cpar, (ZSTD_cParameter)x, (int)y);
             dump(cls(r));
+        } else if ((!strcmp(a, "setcparams") || !strcmp(a, "setfparams") || !strcmp(a, "setparams")) && kind == 'c') {
+            /* struct-level setters: setcparams <wl cl hl sl mm tl strat> | setfparams <cs ck nodict> | setparams <7 cparams> <3 fparams> */
+            long v[10] = {0}; int k = 0; char* t = strtok(line, " \n"); size_t r;
+            while ((t = strtok(NULL, " \n")) && k < 10) v[k++] = atol(t);
+            if (!strcmp(a, "setfparams")) { ZSTD_frameParameters fp; fp.contentSizeFlag = (int)v[0]; fp.checksumFlag = (int)v[1]; fp.noDictIDFlag = (int)v[2]; r = ZSTD_CCtx_setFParams(cctx, fp); }
+            else { ZSTD_parameters p; p.cParams.windowLog = (unsigned)v[0]; p.cParams.chainLog = (unsigned)v[1]; p.cParams.hashLog = (unsigned)v[2]; p.cParams.searchLog = (unsigned)v[3];
+                   p.cParams.minMatch = (unsigned)v[4]; p.cParams.targetLength = (unsigned)v[5]; p.cParams.strategy = (ZSTD_strategy)v[6];
+                   p.fParams.contentSizeFlag = (int)v[7]; p.fParams.checksumFlag = (int)v[8]; p.fParams.noDictIDFlag = (int)v[9];
+                   r = !strcmp(a, "setcparams") ? ZSTD_CCtx_setCParams(cctx, p.cParams) : ZSTD_CCtx_setParams(cctx, p); }
+            dump(cls(r));
+        } else if (!strcmp(a, "dframe") && kind == 'd') {
+            /* dframe <damaged 0|1> <mode 0 stream | 1 one-shot> : decode a checksummed frame (window 1 KiB, 5000 bytes; in the format the context is set to)
+             * with the parameters in force; damaged = stored checksum altered */
+            static unsigned char fr[2][8192]; static size_t fsz[2]; static int built = 0; int fmt = 0; size_t r = 0; unsigned char f[8192]; size_t n;
+            if (!built) { int k; for (k = 0; k < 2; k++) { ZSTD_CCtx* c = ZSTD_createCCtx(); ZSTD_CCtx_setParameter(c, ZSTD_c_checksumFlag, 1); ZSTD_CCtx_setParameter(c, ZSTD_c_windowLog, 10);
+                    ZSTD_CCtx_setParameter(c, ZSTD_c_format, k); fsz[k] = ZSTD_compress2(c, fr[k], sizeof fr[k], src, 5000); ZSTD_freeCCtx(c); } built = 1; }
+            ZSTD_DCtx_getParameter(dctx, ZSTD_d_format, &fmt); n = fsz[fmt != 0]; memcpy(f, fr[fmt != 0], n); if (x) f[n - 2] ^= 0x55;
+            ZSTD_DCtx_reset(dctx, ZSTD_reset_session_only); dstarted = 0;
+            if (y) r = ZSTD_decompressDCtx(dctx, dst, sizeof dst, f, n);
+            else { ZSTD_inBuffer in = { f, 0, 0 }; ZSTD_outBuffer out = { dst, sizeof dst, 0 }; size_t fed = 0; r = 1;
+                while (!ZSTD_isError(r) && r != 0 && fed < n) { size_t step = 700; if (step > n - fed) step = n - fed; in.src = f; in.size = fed + step; in.pos = fed; r = ZSTD_decompressStream(dctx, &out, &in); fed = in.pos; if (in.pos < in.size && !ZSTD_isError(r) && out.pos == out.size) break; }
+                if (!ZSTD_isError(r) && (out.pos != 5000 || memcmp(dst, src, 5000))) r = (size_t)-ZSTD_error_corruption_detected; }
+            if (ZSTD_isError(r)) ZSTD_DCtx_reset(dctx, ZSTD_reset_session_only);
+            dump(cls(ZSTD_isError(r) ? r : 0));
         } else if (!strcmp(a, "start")) {
             size_t r;
             if (kind == 'c') { ZSTD_inBuffer in = { src, 100, 0 }; ZSTD_outBuffer out = { dst, sizeof dst, 0 };
